@@ -147,18 +147,24 @@ func (c *Ctx) Impls(pkg, name string) []*types.Named {
 
 // Method returns the ssa function implementing method name on *T (or T).
 func (c *Ctx) Method(t *types.Named, name string) *ssa.Function {
+	var wrapper *ssa.Function
 	for _, recv := range []types.Type{types.NewPointer(t), t} {
 		ms := c.P.SSA.MethodSets.MethodSet(recv)
 		for i := 0; i < ms.Len(); i++ {
 			if ms.At(i).Obj().Name() == name {
 				if f := c.P.SSA.MethodValue(ms.At(i)); f != nil {
-					// unwrap promoted/wrapper methods to the declared one when possible
-					return f
+					// prefer the declared method over a synthetic pointer-receiver wrapper
+					if f.Synthetic == "" {
+						return f
+					}
+					if wrapper == nil {
+						wrapper = f
+					}
 				}
 			}
 		}
 	}
-	return nil
+	return wrapper
 }
 
 // ImplMethods returns, for every implementation of iface, its method `name`.
@@ -293,3 +299,74 @@ func Instrs(fn *ssa.Function, f func(ssa.Instruction)) {
 }
 
 func sprintf(f string, a ...interface{}) string { return fmt.Sprintf(f, a...) }
+
+// WhyReach returns one call chain from root to target (debugging / diagnostics).
+func (c *Ctx) WhyReach(root, target *ssa.Function, followClosures bool) []string {
+	prev := map[*ssa.Function]*ssa.Function{root: nil}
+	work := []*ssa.Function{root}
+	for len(work) > 0 {
+		f := work[0]
+		work = work[1:]
+		if f == target {
+			var out []string
+			for x := f; x != nil; x = prev[x] {
+				out = append([]string{c.FK(x)}, out...)
+			}
+			return out
+		}
+		Instrs(f, func(ins ssa.Instruction) {
+			var next []*ssa.Function
+			if call, ok := ins.(ssa.CallInstruction); ok {
+				next = c.Callees(call)
+			}
+			if mc, ok := ins.(*ssa.MakeClosure); ok && followClosures {
+				next = append(next, mc.Fn.(*ssa.Function))
+			}
+			for _, n := range next {
+				if _, seen := prev[n]; !seen && c.P.IsRepoFunc(n) {
+					prev[n] = f
+					work = append(work, n)
+				}
+			}
+		})
+	}
+	return nil
+}
+
+// ConvertedImpls lists the named types that are actually converted to the
+// interface pkg.name somewhere in the repository (MakeInterface), which is
+// narrower than structural implementation (a type with a coincidentally
+// matching method set is not included).
+func (c *Ctx) ConvertedImpls(pkg, name string) []*types.Named {
+	in := c.Named(pkg, name)
+	if in == nil {
+		return nil
+	}
+	seen := map[*types.Named]bool{}
+	var out []*types.Named
+	for _, fn := range c.P.Funcs {
+		Instrs(fn, func(ins ssa.Instruction) {
+			mi, ok := ins.(*ssa.MakeInterface)
+			if !ok || !types.Identical(mi.Type(), in) {
+				return
+			}
+			if n := ir.NamedOf(mi.X.Type()); n != nil && !seen[n] {
+				seen[n] = true
+				out = append(out, n)
+			}
+		})
+	}
+	sort.Slice(out, func(i, j int) bool { return out[i].String() < out[j].String() })
+	return out
+}
+
+// ConvertedImplMethods returns method `name` of every type converted to the interface.
+func (c *Ctx) ConvertedImplMethods(pkg, iface, name string) []*ssa.Function {
+	var out []*ssa.Function
+	for _, t := range c.ConvertedImpls(pkg, iface) {
+		if f := c.Method(t, name); f != nil && len(f.Blocks) > 0 {
+			out = append(out, f)
+		}
+	}
+	return out
+}
